@@ -6,7 +6,7 @@ namespace Zvbi.Search
 set_option maxRecDepth 100000
 
 theorem cexD7_fixed_code1 :
-    codeFwd exAb (prepare Shape.repaired cexD7Turn 1) cexD7x1.1.toNat cexD7e1 cexD7x1.2.2 = 0 := by
+    codeFwd Shape.repaired exAb (prepare Shape.repaired cexD7Turn 1) cexD7x1.1.toNat cexD7e1 cexD7x1.2.2 = 0 := by
   decide +kernel
 
 end Zvbi.Search
